@@ -274,6 +274,13 @@ impl<E: Exfiltrator> SignalsInfo<E> {
         Forever(RefSignalIterator::new(&mut self.0))
     }
 
+    /// Addresses of (closed flag, ids mutex, first slot) and the size of one slot.
+    #[cfg(sighook_verif)]
+    #[doc(hidden)]
+    pub fn verif_layout(&self) -> [usize; 4] {
+        self.0.verif_layout()
+    }
+
     /// Get a shareable handle to a [`Handle`] for this instance.
     ///
     /// This can be used to add further signals or close the [`Signals`] instance.
